@@ -1,5 +1,6 @@
-"""C15 - service discovery.  spec/Discov.tla (abstract view), spec/DiscovGen.tla (behaviour generator)
--> replay through the real discov.NewSubscriber on a scripted EtcdClient."""
+"""C15 - service discovery.  spec/Discov.tla (abstract view of the registry), spec/DiscovImpl.tla
+(handleChanges / container mechanism, checked against Discov), spec/DiscovGen.tla (behaviour
+generator) -> replay through the real discov.NewSubscriber on a scripted EtcdClient."""
 from vlib import core
 
 PKG = "./lib/discov/internal"
@@ -7,42 +8,127 @@ OVERLAY = {"lib/discov/internal/zz_verif_c15_export_test.go": "c15/export_test.g
            "lib/discov/internal/zz_verif_c15_test.go": "c15/discov_test.go"}
 RUN = "^TestVerifC15$"
 
-K3 = dict(Keys='{"k1","k2","k3"}', Vals='{"va","vb"}',
-          ValOf='[k \\in {"k1","k2","k3"} |-> IF k = "k3" THEN "vb" ELSE "va"]',
-          Subs='{"s1","x1"}', Excl='{"x1"}', MaxMissed=3, MidLen=1)
-V3 = "k1=va,k2=va,k3=vb"
+
+def consts(valof, subs, excl, mid, missed=3):
+    keys = sorted(valof)
+    q = lambda xs: "{" + ",".join('"%s"' % x for x in xs) + "}"
+    f = "(" + " @@ ".join('("%s" :> "%s")' % (k, valof[k]) for k in keys) + ")"
+    K = dict(Keys=q(keys), Vals=q(sorted(set(valof.values()))), ValOf=f, Subs=q(subs), Excl=q(excl),
+             MaxMissed=missed, MidLen=mid)
+    return K, ",".join("%s=%s" % (k, valof[k]) for k in keys)
+
+
+V2 = dict(k1="va", k2="va")
+V3 = dict(k1="va", k2="va", k3="vb")
+V4 = dict(k1="va", k2="va", k3="vb", k4="vb")
+ALLV = "k1=va,k2=va,k3=vb,k4=vb"
+
+META = dict(
+    text="Model-based replay: spec/Discov.tla describes a model etcd (keys under one prefix, two keys sharing a "
+         "value), the watch being up or down, the changes missed while it is down, reloads (snapshot + new watch "
+         "from the snapshot revision, with changes hitting etcd in between) and subscribers (plain and exclusive) "
+         "attaching at different times; it predicts, per step, the set of value lists Values() may show and whether "
+         "the change listeners must have run. TLC model-checks the spec (Converged, ExclSound, Listeners) and the "
+         "mechanism spec DiscovImpl.tla (snapshot diff against cluster.values, container maps) against it, then "
+         "enumerates every behaviour up to a length bound (plus seeded simulation of longer ones). Every behaviour is "
+         "executed through the public discov.NewSubscriber/Values/AddListener on the real registry, cluster and "
+         "container code, with a scripted EtcdClient (Get = snapshot+revision, Watch = unbuffered channel fed by "
+         "the driver from an event log honouring the requested start revision) seeded into the connection manager; "
+         "after every step Values() of every subscriber and the listener counters are compared with the prediction.",
+    note="Trusted: TLC, the scripted EtcdClient (model etcd written for this check), the barrier (an event of unknown "
+         "type whose error log line acknowledges that the watch goroutine is idle again), cluster.reload called "
+         "synchronously instead of from the connection-state watcher (statwatcher.go is not exercised). Not covered: "
+         "subscribers attaching while the watch is down, several prefixes on one cluster, Get failures/retries, "
+         "watch channel errors/cancellation, compaction, a key changing its value without the subscriber seeing the "
+         "delete (outside the statement's 'one value during its life' only if the key is re-created; probed, see "
+         "evidence notes), events being processed concurrently with a reload (cluster.reload waits for the watch "
+         "goroutines while holding the cluster lock: observed to deadlock when an event is in flight; outside the "
+         "statement's 'once all delivered events have been processed'). Exclusive mode: where a snapshot/replay "
+         "gives no order among keys sharing a value every order is admitted. Bounds: <= 4 keys, 2 values, <= 3 "
+         "subscribers, <= 3 missed changes per outage, <= 1 change between snapshot and new watch.",
+    technique="TLA+ spec (Discov/DiscovImpl) + TLC-generated behaviours replayed through discov.NewSubscriber on a scripted etcd",
+    design="4/C15")
+
+FINISH = dict(rule="behaviours = complete TLC enumeration (BFS over the history variable) of all step sequences of "
+                   "Discov!Next up to MaxLen steps from every initial key set, with MaxDisc disconnections and "
+                   "MaxReload reloads, plus seeded TLC simulation of longer behaviours; after every step Values() of "
+                   "every attached subscriber must be one of the value sets the specification admits and listeners "
+                   "must have run when the value list certainly changed")
 
 
 def mc(ctx):
-    cfg = core.render_cfg(spec="Spec", constants=K3, invariants=["TypeOK", "Converged", "ExclSound"],
+    K, _ = consts(V3, ["s1", "x1"], ["x1"], 1)
+    cfg = core.render_cfg(spec="Spec", constants=K, invariants=["TypeOK", "Converged", "ExclSound"],
                           properties=["Listeners"], view="core")
-    r = ctx.tlc("Discov", cfg, constants=K3, name="Discov-mc", workers=6, coverage=True, timeout=900)
+    r = ctx.tlc("Discov", cfg, constants=K, name="Discov-mc", workers=6, coverage=True, timeout=900, heap="3g")
     ctx.check_coverage(r, ["Change", "Delete", "Disconnect", "Resume", "Reload", "Attach"])
+    # mechanism model (snapshot diff base, container maps) against the abstract spec
+    KI, _ = consts(V3, ["s1", "x1"], ["x1"], 1, missed=(2 if ctx.quick else 3))
+    KT = dict(KI, StoreBack=True)
+    cfg = core.render_cfg(spec="ISpec", constants=KT, invariants=["TypeOK", "Refines", "BaseIsView"], view="icore")
+    ctx.tlc("DiscovImpl", cfg, constants=KT, name="DiscovImpl-storeback", workers=6, timeout=1200, heap="3g")
+    # the same mechanism without storing the snapshot back: TLC's counterexample is a lead for the
+    # replay (rule 1: not a verdict); it documents that the model separates the two trees
+    KF = dict(KI, StoreBack=False)
+    cfg = core.render_cfg(spec="ISpec", constants=KF, invariants=["Refines"], view="icore")
+    r = ctx.tlc("DiscovImpl", cfg, constants=KF, name="DiscovImpl-nostoreback", workers=1, timeout=1200, heap="3g",
+                allow_violation=True)
+    ctx.notes["model_lead"] = ("DiscovImpl with StoreBack=FALSE (handleChanges not storing the snapshot as the new diff base) "
+                               "violates Refines: %s" % bool(r.violated))
 
 
 def gen(ctx, name, K, maxlen, maxdisc, maxreload, simulate=None):
     G = dict(K, MaxLen=maxlen, MaxDisc=maxdisc, MaxReload=maxreload)
     cfg = core.render_cfg(spec="GSpec", constants=G, invariants=["Emit"])
     r = ctx.tlc("DiscovGen", cfg, constants=G, name=name, simulate=simulate, depth=maxlen + 1, timeout=1500,
-                workers=(1 if simulate else 6), heap="8g")
+                workers=(1 if simulate else 6), heap="4g")
     return r.printed
 
 
 def run(ctx):
     mc(ctx)
     binp = ctx.go_build(PKG, OVERLAY, name="c15drv")
-    plans = [("g5", K3, V3, dict(maxlen=5, maxdisc=2, maxreload=2))]
-    for name, K, valof, kw in plans:
+    A, _ = consts(V2, ["s1"], [], 0)
+    B, _ = consts(V3, ["s1", "x1"], ["x1"], 1)
+    X, _ = consts(V3, ["x1"], ["x1"], 1)
+    D, _ = consts(V4, ["s1", "s2", "x1"], ["x1"], 1)
+    if ctx.quick:
+        plans = [("gA7", A, dict(maxlen=7, maxdisc=2, maxreload=2)),
+                 ("gB4", B, dict(maxlen=4, maxdisc=1, maxreload=2))]
+        sims = [("sB12", B, dict(maxlen=12, maxdisc=3, maxreload=3), 600)]
+    else:
+        plans = [("gA8", A, dict(maxlen=8, maxdisc=3, maxreload=3)),
+                 ("gB5", B, dict(maxlen=5, maxdisc=2, maxreload=2)),
+                 ("gX5", X, dict(maxlen=5, maxdisc=2, maxreload=3))]
+        sims = [("sB14", B, dict(maxlen=14, maxdisc=4, maxreload=4), 5000),
+                ("sD20", D, dict(maxlen=20, maxdisc=5, maxreload=6), 5000)]
+    ctx.exhaustive = True
+    for name, K, kw in plans:
         cases = gen(ctx, name, K, **kw)
         path, cnt = ctx.write_cases(name + ".ndjson", cases)
         ctx.samples += core.sample_of(cases, 1)
-        ctx.replay(PKG, OVERLAY, RUN, path, label=name, env=dict(VERIF_C15_VALOF=valof), shards=16, binp=binp)
+        ctx.replay(PKG, OVERLAY, RUN, path, label=name, env=dict(VERIF_C15_VALOF=ALLV), shards=16, binp=binp)
+    for name, K, kw, num in sims:
+        cases = sorted(set(gen(ctx, name, K, simulate=num, **kw)))
+        path, cnt = ctx.write_cases(name + ".ndjson", cases)
+        ctx.samples += core.sample_of(cases, 1)
+        ctx.replay(PKG, OVERLAY, RUN, path, label=name, env=dict(VERIF_C15_VALOF=ALLV), shards=16, binp=binp)
+    probe(ctx)
+    ctx.assumptions += ["scripted EtcdClient stands for etcd (snapshot+revision, ordered watch from a requested revision)",
+                        "cluster.reload is invoked by the driver, not by the gRPC connection-state watcher"]
+
+
+def probe(ctx):
+    """Measured, not judged: a key re-created with another value during an outage."""
+    import json, os
+    out = os.path.join(ctx.build, "c15probe.json")
+    rc, txt = ctx.go_test(PKG, OVERLAY, "^TestVerifC15Probe$", env=dict(VERIF_C15_PROBE_OUT=out), name="probe", timeout=120)
+    if rc == 0 and os.path.exists(out):
+        ctx.notes["probe"] = json.load(open(out))
+    else:
+        ctx.notes["probe"] = "probe did not run (rc=%s)" % rc
 
 
 def replay(ctx, rp):
     path, _ = ctx.write_cases("replay.ndjson", [rp["case"]])
-    ctx.replay(PKG, OVERLAY, RUN, path, label="replay", env=dict(VERIF_C15_VALOF=V3))
-
-
-FINISH = dict(rule="tbd")
-META = dict(text="tbd", note="tbd", technique="tbd", design="4/C15")
+    ctx.replay(PKG, OVERLAY, RUN, path, label="replay", env=dict(VERIF_C15_VALOF=ALLV))
